@@ -195,12 +195,33 @@ def _record(args):
                         out = [idmap[id(x)] for x in sv.filter(css, [nodes[i] for i in items])]
                     else:
                         r = obj.closest(tnode)
-                        out = 0 if r is None else idmap[id(r)]
+                        out = 0 if r is None else -7 if isinstance(r, bs4.BeautifulSoup) else idmap[id(r)]
                 except Exception as ex:
                     out = 'EXC:' + type(ex).__name__
                 ev['out'] = out
                 ev['res'] = out
                 lines.append(json.dumps(ev))
+        # selectors that NO element of the tree satisfies, but that the attribute-less, nameless document object would if it were asked:
+        # closest() must come back with None (never the document), select / filter with nothing
+        for cj, ccss in enumerate([':not(*)', ':not([id], :not([id]))', ':not(%s)' % ', '.join(sorted(set(names)))]):
+            cast = None
+            try:
+                cobj = sv.compile(ccss)
+            except Exception:
+                continue
+            for t in [0] + els[:3] + els[-2:]:
+                if t == 0 and d['top'] != 'doc':
+                    continue
+                tnode = container if t == 0 else nodes[t]
+                for ep in ('closest', 'select_one'):
+                    try:
+                        r = cobj.closest(tnode) if ep == 'closest' else cobj.select_one(tnode)
+                        out = 0 if r is None else 'the document object' if isinstance(r, bs4.BeautifulSoup) else idmap.get(id(r), -9)
+                    except Exception as ex:
+                        out = 'EXC:' + type(ex).__name__
+                    if out != 0:
+                        lines.append(json.dumps({'id': '%d.%d.none%d.%s.%d' % (seed, k, cj, ep, t), 'doc': d, 'sel': [], 'nsmap': [], 'ep': 'none', 'target': t,
+                                                 'limit': 0, 'items': [], 'css': ccss, 'text': common.cps(ccss), 'out': out, 'res': out, 'expect_none': True}))
     return lines
 
 
@@ -212,6 +233,16 @@ def trace_part(chk, tier):
     with mp.get_context('fork').Pool(nproc) as pool:
         outs = pool.map(_record, [(common.SEED * 1000 + 31 * p + 5, ndocs, nsel) for p in range(nproc)])
     lines = [l for o in outs for l in o]
+    import json as _json
+    keep = []
+    for l in lines:
+        if '"expect_none": true' in l:
+            e = _json.loads(l)
+            chk.violation('none|%s|%s|%s' % (e['css'], e['id'], e['out']), '%s(%r) on target %d returned %r although no element of the tree matches (the document object is never a result)' % (
+                e['id'].split('.')[-2], e['css'], e['target'], e['out']), {'cfg': 'unsatisfiable', 'group': 'document object returned', 'event': e})
+        else:
+            keep.append(l)
+    lines = keep
     trace.validate(chk, lines, 'Trace_Api', 'trace-api')
     # the same calls as views of the relation the implementation-shaped pipeline computes from the TEXT (Trace_ApiPipe)
     from harness import statedefs, tlc
